@@ -1,5 +1,5 @@
 use super::BufferParser;
-use crate::{ansi, Buffer, CallbackAction, Caret, EngineResult, Position};
+use crate::{ansi, Buffer, CallbackAction, Caret, EngineResult};
 
 const CTRL_A: char = 1 as char;
 pub const FG: &[u8] = b"KBGCRMYW";
@@ -19,7 +19,7 @@ impl BufferParser for Parser {
             self.ctrl_a = false;
             match ch {
                 'L' => buf.clear_screen(0, caret),
-                '\'' => caret.set_position(Position::default()),
+                '\'' => caret.home(buf),
                 'J' => buf.clear_buffer_down(current_layer, caret),
                 '>' => buf.clear_line_end(current_layer, caret),
                 '<' => caret.left(buf, 1),
